@@ -927,7 +927,10 @@ def run(ctx):
                 "supervised worker processes; generators: specification encodings and single-fault corruptions for all catalogue "
                 "types (%d at this run) and %d borrowed/derived/macro types, the slice fast path at every memory phase," % (len(wg.catalogue()), len(EXTRA)) +
                 "  valid-signature/requested-type mismatches, nesting bombs (variants 10..20000 "
-                "[thorough 100000], variant-array towers, struct/array towers at the 32/32 signature limits), length bombs (2^26-1..2^32-1 "
+                "[thorough 100000], variant-array towers, struct/array towers at the 32/32 signature limits, single-child chains whose levels cycle "
+                "through 11 patterns of variant / dict / array / struct levels at 9, 62..66, 81, 127, 128, 1000 levels, as values, bodies and "
+                "unknown header fields), scaling streams n..8n (arrays per entry point; headers with 12500..100000 known / unknown / mixed "
+                "8-byte fields), length bombs (2^26-1..2^32-1 "
                 "with 0..32 bytes following), random bytes, corrupted and random headers; non-trivial = non-empty input; distinct = "
                 "distinct case lines. Predicate per case: status in {ok, err}, peak heap <= K*len + 64 KiB (K = 32, Param API: "
                 "4*size_of::<Param>()), time < 9 s, plus the verdict the case's construction demands (e.g. nesting > 64 => err).")
